@@ -132,7 +132,33 @@ structure Rewritten where
   out  : Bytes      -- `out_request`
   deriving DecidableEq, Repr
 
-/-- the std::string computations of `forward_request`; `.error ()` = `throw std::runtime_error("invalid request")` -/
+/-- `int const port` of `forward_request`: 80 unless the authority (the target up to the first '/' after
+    `http://`) has a ':' beyond position 7 that does not lie inside a bracketed IPv6 literal; then
+    `atoi` of what follows that ':' -/
+def reqPort (req : Bytes) : Int :=
+  let pathStart := findFirstFrom req 47 7                -- req.req.find_first_of('/', 7)
+  let authority := match pathStart with                  -- req.req.substr(0, path_start)
+    | none => req
+    | some ps => req.take ps
+  let hostEnd0 := findLast authority 58                  -- authority.find_last_of(':')
+  let bracket := findLast authority 93                   -- authority.find_last_of(']')
+  let hostEnd : Option Nat := match bracket, hostEnd0 with
+    | some b, some he => if he < b then none else some he
+    | _, _ => hostEnd0
+  let portAt : Option Nat := match hostEnd with          -- host_end != npos && host_end > 7
+    | some he => if he > 7 then some he else none
+    | none => none
+  match portAt with
+  | none => 80
+  | some he =>                                           -- atoi(req.req.substr(host_end + 1, path_start).c_str())
+    atoi (match pathStart with
+          | some ps => (req.drop (he + 1)).take ps
+          | none => req.drop (he + 1))
+
+/-- the std::string computations of `forward_request`; `.error ()` = `throw std::runtime_error("invalid request")`
+    resp. (repaired in 99bb698) `throw std::runtime_error("invalid port")` for a port that does not fit 16 bits.
+    Before the repair the port was only `static_cast<unsigned short>`ed when dialling (`toU16`):
+    `http://h:73616/` dialled port 8080. -/
 def rewrite (r : Request) : Except Unit Rewritten :=
   if r.req.take 7 ≠ HTTP_PFX then .error ()             -- req.req.compare(0, 7, "http://") != 0
   else
@@ -158,12 +184,10 @@ def rewrite (r : Request) : Except Unit Rewritten :=
         | some ps => (r.req.drop 7).take (ps - 7)
         | none => r.req.drop 7
     let host := stripBrackets host0
-    let port : Int := match portAt with
-      | none => 80
-      | some he =>                                       -- atoi(req.req.substr(host_end + 1, path_start).c_str())
-        atoi (match pathStart with
-              | some ps => (r.req.drop (he + 1)).take ps
-              | none => r.req.drop (he + 1))
+    let port : Int := reqPort r.req
+    -- if (port < 0 || port > 0xffff) throw std::runtime_error("invalid port");
+    if port < 0 ∨ port > 65535 then .error ()
+    else
     let foundHost := r.headers.any (fun h => h.1 == HOST_KEY)
     .ok { host := host, port := port,
           out := r.method ++ [32] ++ pathPart ++ HTTP11 ++ headerLines r.headers
